@@ -192,6 +192,17 @@ pub fn run(ctx: &mut crate::Ctx) {
               let mut q = Query::select(); q.column(id(&a.a)).from(id(&a.t)); q.with(WithClause::new().cte(CommonTableExpression::from_select(base)).to_owned()) },
             { let base = { let mut s = Query::select(); s.column(id(&a.a)).column(id(&a.b)).from(id(&a.t)); s };
               let mut q = Query::select(); q.column(id(&a.a)).from(id(&a.t)); q.with(WithClause::new().cte(CommonTableExpression::new().query(base).columns([id(&a.a), id(&a.b)]).table_name(id(&format!("cte_{}", a.t))).to_owned()).to_owned()) });
+        // ---- several cond_where calls conjoin: the holder after two calls is the AND of both conditions (C06's add_condition cases)
+        {
+            let anyg = || Cond::any().add(a.e1.clone()).add(a.e2.clone());
+            let negg = || Cond::all().not().add(a.e1.clone()).add(a.e3.clone());
+            pair!("cond_where(any) then cond_where(empty all)", { let mut s = sel(&a); s.cond_where(anyg()).cond_where(Cond::all()).limit(3); s }, { let mut s = sel(&a); s.cond_where(Cond::all().add(anyg()).add(Cond::all())).limit(3); s });
+            pair!("cond_where(not) then cond_where(empty all)", { let mut s = sel(&a); s.cond_where(negg()).cond_where(Cond::all().add_option(None::<SimpleExpr>)).limit(3); s }, { let mut s = sel(&a); s.cond_where(Cond::all().add(negg()).add(Cond::all())).limit(3); s });
+            pair!("cond_where(any) then cond_where(any)", { let mut s = sel(&a); s.cond_where(anyg()).cond_where(Cond::any().add(a.e3.clone()).add(a.e1.clone())); s }, { let mut s = sel(&a); s.cond_where(Cond::all().add(anyg()).add(Cond::any().add(a.e3.clone()).add(a.e1.clone()))); s });
+            pair!("cond_where(empty all) then cond_where(any)", { let mut s = sel(&a); s.cond_where(Cond::all()).cond_where(anyg()); s }, { let mut s = sel(&a); s.cond_where(Cond::all().add(anyg())); s });
+            pair!("cond_having(any) then cond_having(empty all)", { let mut s = sel(&a); s.group_by_col(id(&a.a)).cond_having(anyg()).cond_having(Cond::all()); s }, { let mut s = sel(&a); s.group_by_col(id(&a.a)).cond_having(Cond::all().add(anyg()).add(Cond::all())); s });
+            pair!("update cond_where(any) then cond_where(empty all)", { let mut u = Query::update(); u.table(id(&a.t)).value(id(&a.a), a.v1.clone()).cond_where(anyg()).cond_where(Cond::all()); u }, { let mut u = Query::update(); u.table(id(&a.t)).value(id(&a.a), a.v1.clone()).cond_where(Cond::all().add(anyg()).add(Cond::all())); u });
+        }
         // ---- take() as the finisher returns the whole statement (dialect extension clauses included)
         {
             use sea_query::extension::mysql::{IndexHintScope, MySqlSelectStatementExt};
